@@ -118,7 +118,7 @@ def fmtEnc : EncEv → String
   | .resize n => s!"S{n}"
 
 def peek (c : Conn) : String :=
-  s!"st={c.streams.length},{c.closedStreams.length},{c.cstate.name},{c.highestIn},{c.highestOut},{c.outWin},{c.inWM.current_window_size},{c.inWM.max_window_size},{c.maxOutFrame},{c.maxInFrame},{c.fb.data.length}"
+  s!"st={c.streams.length},{c.closedStreams.length},{c.cstate.name},{c.highestIn},{c.highestOut},{c.outWin},{c.inWM.current_window_size},{c.inWM.max_window_size},{c.maxOutFrame},{c.maxInFrame},{c.fb.data.length},{c.fb.headersBuffer.length}"
 
 def peekStreams (c : Conn) : String :=
   if c.streams.isEmpty then "." else ";".intercalate (c.streams.map fun (sid, st) =>
